@@ -4,6 +4,10 @@ Tiers:
   exhaustive  all programs up to a node bound over a reduced alphabet, each run plain and
               behind multi-yield prefixes so that every construct sees 1, 2 and 3 inputs;
   random      typed random programs (zwv.gen), nesting depth <= 3, likewise prefixed;
+  contexts    systematic composition: a filter that lets only some of the incoming stacks through, followed
+              by a multi-yield producer, placed inside every sub-expression context (|| branches, `,` branches,
+              [ ], let, %( %), ?( ), infix, if condition/branches, E?) and inside pairs of them, behind
+              prefixes that make the filter reject the first, a middle or the last input;
   union law   engine-only metamorphic check of the statement itself:
               results((s1,...,sn) P) = multiset-union of results(si P).
 Oracle: zwv.model (reference interpreter written from the documentation).
@@ -23,7 +27,8 @@ RULE = ("programs: (a) exhaustive enumeration of all ASTs up to N nodes over the
         "{1, 2, dup, drop, swap, add, \"%s\", A, [E], ?(E), !(E), E?, let A := E;, (E), E E, "
         "E , E, E || E, E == E, if E then E else E}, each run on stack [7 8], behind `(1, 2)` and behind "
         "`(1, 2, 3)`; (b) seeded random typed programs (depth <= 3) plain and behind a 2- or 3-yield prefix; "
-        "(c) union law on random programs, engine only.  A case is non-trivial when a construct with per-input "
+        "(c) contexts: 8 filters x 6 multi-yield producers x 14 sub-expression contexts (and pairs of contexts) x 6 prefixes; "
+        "(d) union law on random programs, engine only.  A case is non-trivial when a construct with per-input "
         "state (, || [ ] ?( ) !( ) infix let * + ? if format-splice) is nested inside another construct, was fed "
         ">= 2 input stacks during the run and yielded != 1 results for some input; distinct = distinct program text + input.")
 
@@ -210,6 +215,92 @@ def work_random(task):
     return ev
 
 
+# ------------------------------------------------- contexts x filters x producers
+
+def _l(v):
+    return ("lit", v, "dec")
+
+
+def _alt(*vs):
+    return ("alt", [_l(v) for v in vs])
+
+
+def _w(*ws):
+    return [("word", w) for w in ws]
+
+
+# multi-yield producers: push exactly one value, several times, in a documented order
+CTX_PRODUCERS = [
+    _alt(10, 20), _alt(10, 20, 30),
+    ("cat", [("cap", (), _alt(10, 20, 30)), ("word", "elem")]),
+    ("cat", [("cap", (), _alt(11, 21, 31)), ("word", "relem")]),
+    ("or", [("cat", [("infix", ("nop",), "==", _l(3)), _alt(40, 50)]), _alt(10, 20)]),
+    ("cat", [_alt(10, 20), ("alt", [("cat", [_l(1)] + _w("add")), ("cat", [_l(2)] + _w("add"))])]),
+]
+# filters: stack effect 0, let some of the prefix values through
+CTX_FILTERS = [
+    ("infix", ("nop",), "==", _l(2)), ("infix", ("nop",), "!=", _l(1)), ("infix", ("nop",), ">", _l(1)),
+    ("sub", True, (), ("infix", ("nop",), "==", _l(2))), ("sub", False, (), ("infix", ("nop",), "==", _l(1))),
+    ("or", [("infix", ("nop",), "==", _l(2)), ("infix", ("nop",), "==", _l(3))]),
+    ("if", ("infix", ("nop",), "==", _l(1)), ("sub", False, (), ("nop",)), ("nop",)),
+    ("nop",),
+]
+CTX_PREFIXES = [_alt(1, 2), _alt(2, 1), _alt(1, 2, 3), _alt(1, 2, 1, 2), _alt(3, 1, 2), _alt(1, 1, 2)]
+
+
+def _contexts(x):
+    """x pushes one value (0..n times); each context keeps that stack effect."""
+    yield "plain", x
+    yield "or-left", ("or", [x, _l(99)])
+    yield "or-right", ("or", [("cat", [("infix", ("nop",), "==", _l(7)), _l(5)]), x])
+    yield "alt-left", ("alt", [x, _l(99)])
+    yield "alt-right", ("alt", [_l(99), x])
+    yield "capture", ("cap", (), x)
+    yield "let", ("scope", (), ("cat", [("let", ("B",), x), ("read", "B")]))
+    yield "splice", ("str", [b"<", x, b">"], False)
+    yield "sub-then", ("cat", [("sub", True, (), ("cat", [x, ("infix", ("nop",), ">", _l(15))])), _l(1)])
+    yield "infix", ("cat", [("infix", x, ">=", _l(20)), _l(1)])
+    yield "if-cond", ("if", ("cat", [x, ("infix", ("nop",), ">", _l(15))]), _l(1), _l(2))
+    yield "if-then", ("if", ("infix", ("nop",), "!=", _l(3)), x, _l(99))
+    yield "if-else", ("if", ("infix", ("nop",), "==", _l(3)), _l(99), x)
+    yield "opt", ("cat", [("opt", ("cat", [x, ("word", "drop")])), _l(1)])
+
+
+def ctx_programs():
+    out = []
+    for fi, f in enumerate(CTX_FILTERS):
+        for pi, m in enumerate(CTX_PRODUCERS):
+            x = ("cat", [f, m]) if f != ("nop",) else m
+            for n1, c1 in _contexts(x):
+                out.append(((n1, fi, pi), c1))
+                if (fi + pi) % 2 == 0:
+                    for n2, c2 in _contexts(c1):
+                        if n2 != "plain":
+                            out.append(((n2 + ">" + n1, fi, pi), c2))
+    return out
+
+
+def work_ctx(task):
+    lo, hi = task
+    ev = Evidence()
+    drv = Driver()
+    progs = ctx_programs()
+    try:
+        for idx in range(lo, min(hi, len(progs))):
+            (name, fi, pi), node = progs[idx]
+            for k, pre in enumerate(CTX_PREFIXES):
+                if k >= 2 and (idx + k) % 3:
+                    continue
+                o = check_one(drv, ev, ("cat", [pre, node]), (), "contexts")
+                if o is not None and o.status == "ok":
+                    ev.label("ctx:" + name.split(">")[0])
+                    if fi != len(CTX_FILTERS) - 1:
+                        ev.label("ctx:filtered")
+    finally:
+        drv.kill()
+    return ev
+
+
 def canon_stack(s):
     return tuple(CMP.strip_pos(CMP.from_dump(v)) if v["t"] in "csqk" else ("x", v["t"]) for v in s)
 
@@ -281,6 +372,10 @@ def main(tier, seed):
     ev.merge(run_pool(work_enum, [(lo, min(lo + chunk, total), maxn) for lo in range(0, total, chunk)]))
     per = max(100, nrand // 48)
     ev.merge(run_pool(work_random, [(seed, s, min(per, nrand - s), depth) for s in range(0, nrand, per)]))
+    nctx = len(ctx_programs())
+    step = nctx // 48 + 1
+    ev.merge(run_pool(work_ctx, [(lo, lo + step) for lo in range(0, nctx, step)]))
+    ev.extra["context_programs"] = nctx
     per = max(100, nunion // 32)
     ev.merge(run_pool(work_union, [(seed, s, min(per, nunion - s), depth) for s in range(0, nunion, per)]))
     ev.extra["exhaustive_programs"] = total
@@ -292,6 +387,8 @@ def main(tier, seed):
             ev.labels.get("nest:%s>alt" % k, 0) > 0 for k in ("or", "let", "str", "star", "cap")),
         "multiset-compared class non-empty": ev.labels.get("multiset-compared", 0) > 0,
         "ordered class non-empty": ev.labels.get("ordered", 0) > 0,
+        "filter-then-producer inside every context": all(ev.labels.get("ctx:" + c, 0) > 20 for c in (
+            "or-left", "or-right", "alt-left", "alt-right", "capture", "let", "splice", "sub-then", "infix", "if-cond", "if-then", "if-else", "opt")),
     }
     return finish(PID, tier, seed, ev, RULE, t0, exhaustive=False, health=health,
                   assumptions=["zwv/model.py is a faithful reading of doc/syntax.rst and the core docstrings",
